@@ -381,8 +381,8 @@ def check_C15(ctx):
                   label='runTracerouteMulti: every failing subset x every completion order; all-or-error, exact counts, termination')
     scen = vt.tlc_generate(ctx, 'GenRun', 'C15', 0)
     if ctx.quick():
-        keep = [s for s in scen if '/cancel/' in s['id']]
-        rest = [s for s in scen if '/cancel/' not in s['id']]
+        keep = [s for s in scen if '/cancel/' in s['id'] or '/many/' in s['id']]
+        rest = [s for s in scen if '/cancel/' not in s['id'] and '/many/' not in s['id']]
         scen = keep + rest[ctx.seed % 5::5]
     wire_family(ctx, 'C15', scen, RUN_RULE % 'C15All (protocol x query counts x failing subsets x completion orders x public-IP on/off/failing)' +
                 '; non-trivial = at least one injected failure fired or more than one query ran',
